@@ -42,12 +42,18 @@ def generate(rng, idx, tier, variant):
         else:
             tr = rng.choice(names)
         reset = rng.random() < 0.15
+        off_call = rng.random() < 0.2  # this call is made with tracing off on the traced party too
+        if off_call:
+            tr = rng.choice([None, False])
+            reset = False
         entry = rng.choice(['solve_t', 'solve_t', 'solve_period', 'solve'])
         tn = rng.randint(lags, n - 1 - leads)
         # repeated solve of a period with another trace specification: generated rarely and marked (known finding F9)
         key = canon(tr)
         respecified = False
-        if entry != 'solve':
+        if off_call:
+            pass
+        elif entry != 'solve':
             prev = solved_specs.get(tn)
             if prev is not None and prev != key and not reset:
                 if rng.random() < 0.85:
@@ -77,6 +83,12 @@ def generate(rng, idx, tier, variant):
         if spec['kind'] == 'scripted':
             plan, placed = S.gen_plan(rng, opts, spec, faults, idx)
             op['plan'] = {'*': plan}
+            if rng.random() < 0.03 and not off_call:
+                # a very long trace (well past a hundred snapshots) of several variables
+                opts.update({'max_iter': 140, 'min_iter': 0, 'failures': 'ignore', 'errors': 'ignore', 'tol': 2.0**-10, 'offset': 0})
+                op['plan'] = {'*': {'passes': [], 'default': {'a': 'delta', 'd': [1.0] * len(spec['endo'])}}}
+                op['trace'] = True if spec.get('trace_variables') is None else list(names)
+                placed = []
             if 'preexisting' in placed:
                 ops.append({'op': 'poke', 'name': rng.choice(names), 'pos': tn, 'v': rng.choice(['nan', 'inf'])})
         ops.append(op)
@@ -185,16 +197,19 @@ def execute(schedule, ctx):
                 return m.solve_period(spans.label_forms(spec['span'], span, tn, op.get('form', 0)), **opts, **extra)
             return m.solve(**opts, **extra)
 
-        extra = {'trace': tr}
+        tracing = bool(tr)
+        extra = {'trace': tr} if (tr is not None) else {}
         if reset:
             extra['reset'] = True
-        names = _trace_names(A, tr, spec)
+        names = _trace_names(A, tr, spec) if tracing else None
         if entry == 'solve':
             planned = list(range(lags, n - leads)) if opts['min_iter'] <= opts['max_iter'] else []
         else:
             planned = [tn]
         # a period whose non-empty trace was recorded for other variables is being appended to: known finding F9
-        respec = (not reset) and any(expected[p]['names'] is not None and expected[p]['names'] != names for p in planned)
+        respec = tracing and (not reset) and any(expected[p]['names'] is not None and expected[p]['names'] != names for p in planned)
+        if not tracing:
+            ctx.probe('tracing-off-call-on-traced-party')
         oA = _out(lambda: call(A, **extra))
         # B: the same class without the keyword; for solve() the per-period loop (equivalent by C05) so that the
         # period at which it stopped is known
@@ -219,7 +234,7 @@ def execute(schedule, ctx):
         S.count_faults(ctx, probes.get_ctl(B).log, opts)
         ctx.count('passes', sum(1 for r in probes.get_ctl(A).log if r['hook'] == 'eval'))
         ctx.count('steps', len(probes.get_ctl(A).log))
-        ctx.probe(f"entry:{entry}:trace={'True' if tr is True else 'list' if isinstance(tr, list) else 'name'}")
+        ctx.probe(f"entry:{entry}:trace={'True' if tr is True else 'list' if isinstance(tr, list) else 'name' if tr else 'off'}")
         if reset:
             ctx.probe('reset=True')
         if respec:
@@ -251,6 +266,9 @@ def execute(schedule, ctx):
             for p in planned:
                 # what (if anything) was appended before the failure is not tracked: names unknown from here on
                 expected[p] = {'names': expected[p]['names'] if (expected[p]['names'] is not None and _cls(oA) != 'ValueError') else '?', 'labels': None, 'cols': None}
+        elif not tracing:
+            # with tracing off no trace is written: every period's trace must be exactly what it was
+            _check_traces(A, expected, chk, n, entry + '/tracing-off')
         else:
             logB = probes.get_ctl(B).log
             for p in attempted:
